@@ -910,7 +910,7 @@ func (vc *FnVC) bytesOf(elemArr, slice string) string {
 func (vc *FnVC) doMakeInterface(x *ssa.MakeInterface, st *State) {
 	v := vc.term(x.X)
 	t := x.X.Type()
-	tag := vc.prog.typeTag(t)
+	tag := vc.enc.typeTag(t)
 	b := vc.enc.box(v.S, t)
 	if f := vc.enc.boxFact(v.S, t); f != "true" {
 		vc.emit(f)
@@ -926,7 +926,7 @@ func (vc *FnVC) doTypeAssert(x *ssa.TypeAssert, st *State) {
 		ok = vc.implementsPred(v.S, at)
 		res = v.S
 	} else {
-		tag := vc.prog.typeTag(at)
+		tag := vc.enc.typeTag(at)
 		ok = eq("(if-tag "+v.S+")", fmt.Sprint(tag))
 		res = vc.enc.unbox("(if-data "+v.S+")", at)
 	}
@@ -966,7 +966,8 @@ func (vc *FnVC) implementsPred(v string, it types.Type) string {
 		vc.emit(not("(" + fn + " 0)"))
 	}
 	// facts for the tags known so far
-	for id, t := range vc.prog.tagType {
+	for _, id := range vc.enc.tagIDs() {
+		t := vc.enc.tagType[id]
 		k := fmt.Sprintf("implfact:%s:%d", fn, id)
 		if vc.enc.declared[k] {
 			continue
